@@ -30,6 +30,10 @@ def shift_cmd(c, n):
             c[k] = [r + n for r in c[k]]
     if c["op"] == "objectNew":
         c["fs"] = [[name, r + n] for name, r in c["fs"]]
+    if "kw" in c:
+        c["kw"] = [[name, r + n] for name, r in c["kw"]]
+    if isinstance(c.get("plain"), dict):
+        c["plain"] = dict(c["plain"], cap=c["plain"]["cap"] + n)
     return c
 
 
